@@ -40,8 +40,11 @@ def c13a(tree, ob):
     cond = enclosing(s[0], (ast.If,))
     atoms = set(norm.all_atoms(cond.test)) if cond is not None and isinstance(norm.strip(cond.test), ast.BoolOp) and isinstance(norm.strip(cond.test).op, ast.Or) else set()
     fits = {('len({}) < mtu'.format(data), True), ('len({}) > mtu'.format(data), False), ('mtu < len({})'.format(data), False), ('mtu > len({})'.format(data), True)}
+    strict = {('len({}) < mtu'.format(data), True), ('mtu > len({})'.format(data), True)}
     if ('mtu is None', True) not in atoms or not (atoms & fits) or len(atoms) != 2 or s[0] not in cond.body:
         ob.violate(UAGENT, QS, 'if ' + (src(cond.test) if cond is not None else '?'), 'a bundle is sent as one datagram under a condition other than (no MTU or it fits the MTU)', s[0])
+    elif atoms & strict:
+        ob.violate(UAGENT, QS, 'if ' + src(cond.test), 'a bundle of exactly the MTU fits one datagram but is cut into segments (the fit test is strict)', s[0])
     else:
         ob.site(UAGENT, s[0], 'single datagram iff no MTU or within it')
     dv = fv.value_at(s[1].elts[0], s[0])
@@ -58,7 +61,41 @@ def _loop(fv, ob):
     return one([n for n in walk_local(fv.func) if isinstance(n, ast.While)], 'segment loop', ob)
 
 
+def c13_tx_isolation(tree, ob):
+    ''' The pacing loop runs in a timer callback.  A transfer that cannot be cut (MTU below the segment overhead: the
+    generator raises) or cannot be written (EMSGSIZE) must cost that transfer only: an exception out of the callback
+    removes the timer source while glib_timer_id stays set, so it is never re-armed and nothing is ever sent again. '''
+    fv = FuncView(tree, UAGENT, 'TxSendWait._update_send')
+    from ..cfg import handler_names
+    risky = [c for c in calls_in(fv.func) if pm('next(self.cur_item.dgram_iter)', c) is not None or pm('self.cur_item.sender($d)', c) is not None]
+    ob.require(len(risky) >= 2, 'generator / sender calls of the current item not found')
+    for c in risky:
+        ok = False
+        prev = c
+        cur = getattr(c, '_parent', None)
+        while cur is not None and cur is not fv.func:
+            if isinstance(cur, ast.Try) and any(prev is st or prev in ast.walk(st) for st in cur.body):
+                for h in cur.handlers:
+                    names = [n or 'BaseException' for n in handler_names(h)]
+                    if any(n.split('.')[-1] in ('Exception', 'BaseException') for n in names):
+                        # the handler gives the item up: cur_item cleared here or in a helper it calls
+                        clears = any(isinstance(n, ast.Assign) and any(src(t) == 'self.cur_item' for t in n.targets) for n in walk_local(h))
+                        for hc in calls_in(h):
+                            if isinstance(hc.func, ast.Attribute) and dotted(hc.func.value) == 'self' and tree.has_func(UAGENT, 'TxSendWait.' + hc.func.attr):
+                                hf = tree.func(UAGENT, 'TxSendWait.' + hc.func.attr)
+                                clears = clears or any(isinstance(n, ast.Assign) and any(src(t) == 'self.cur_item' for t in n.targets) for n in walk_local(hf))
+                        ok = ok or clears
+            prev = cur
+            cur = getattr(cur, '_parent', None)
+        if ok:
+            ob.site(UAGENT, c, 'a failure of {} gives up the current transfer only'.format(src(c)[:40]))
+        else:
+            ob.violate(UAGENT, fv.qual, src(c)[:60] + ' unprotected in the timer callback', 'an exception from a transfer that cannot be cut or written leaves the pacing timer callback: the timer is gone while '
+                       'glib_timer_id stays set, so every later bundle is accepted and never emitted', c)
+
+
 def c13b(tree, ob):
+    c13_tx_isolation(tree, ob)
     fv = FuncView(tree, UAGENT, QS)
     loop = _loop(fv, ob)
     til = tiling(fv, loop, ob, UAGENT, 'UDPCL segment tiling')
@@ -186,7 +223,38 @@ def c13d(tree, ob):
         ob.violate(UAGENT, QR, src(item)[:100], 'the queued bundle is not the accumulated buffer', item)
 
 
+def c13_rx_isolation(tree, ob):
+    ''' One bad message (a segment contradicting an earlier one, a truncated datagram) costs that message / that datagram
+    only: not the other messages of the datagram, and never the io watch of the listening socket. '''
+    from ..cfg import handler_names
+
+    def guarded(fvx, call):
+        prev = call
+        cur = getattr(call, '_parent', None)
+        while cur is not None and cur is not fvx.func:
+            if isinstance(cur, ast.Try) and any(prev is st or prev in ast.walk(st) for st in cur.body):
+                if any((n or 'BaseException').split('.')[-1] in ('Exception', 'BaseException') for h in cur.handlers for n in handler_names(h)):
+                    return True
+            prev = cur
+            cur = getattr(cur, '_parent', None)
+        return False
+    fs = FuncView(tree, UAGENT, 'Agent._sock_recvfrom')
+    for c in method_calls(fs.func, '_recv_datagram', 'self'):
+        if guarded(fs, c):
+            ob.site(UAGENT, c, '_sock_recvfrom: a failing datagram does not leave the io callback')
+        else:
+            ob.violate(UAGENT, fs.qual, src(c)[:60] + ' unprotected in the io callback', 'an exception from one datagram (contradicting segment, truncated CBOR) leaves the io callback of the listening socket: '
+                       'the watch is removed and nothing is ever received on it again', c)
+    fd = FuncView(tree, UAGENT, 'Agent._recv_datagram')
+    for c in method_calls(fd.func, '_recv_ext_map', 'self'):
+        if guarded(fd, c):
+            ob.site(UAGENT, c, '_recv_datagram: a failing extension map does not drop the following messages')
+        else:
+            ob.violate(UAGENT, fd.qual, src(c)[:60] + ' unprotected in the message loop', 'an exception from one extension map aborts the message loop: the other messages of the same datagram are dropped', c)
+
+
 def c13e(tree, ob):
+    c13_rx_isolation(tree, ob)
     fv = FuncView(tree, UAGENT, 'Agent._recv_datagram')
     loop = one([n for n in walk_local(fv.func) if isinstance(n, ast.While)], 'message loop', ob)
     peeks = [n for n in walk_local(loop) if isinstance(n, ast.Assign) and pm('buf.peek(1)', n.value) is not None]
